@@ -143,3 +143,32 @@ def use_repo():
         f = getattr(sys.modules["quantem"], "__file__", "") or ""
         if not os.path.abspath(f).startswith(os.path.abspath(src)):
             raise HarnessError(f"quantem already imported from {f}, wanted {src}")
+
+
+def library_frame(exc):
+    """If the exception was raised from inside the library under test (innermost traceback frame in
+    VERIF_REPO/src), return 'file.py:function'; else None (then it is a harness problem)."""
+    import traceback
+
+    src = os.path.abspath(os.path.join(REPO, "src")) + os.sep
+    tb = traceback.extract_tb(exc.__traceback__)
+    if not tb:
+        return None
+    last = tb[-1]
+    fn = os.path.abspath(last.filename)
+    if fn.startswith(src):
+        return f"{os.path.basename(fn)}:{last.name}"
+    # errors raised by numpy/torch/zarr on behalf of a library frame further up still count when the
+    # harness frame that called into the library is not the innermost python frame of the harness
+    lib = [f for f in tb if os.path.abspath(f.filename).startswith(src)]
+    harness_after = False
+    seen_lib = False
+    for f in tb:
+        a = os.path.abspath(f.filename)
+        if a.startswith(src):
+            seen_lib = True
+        elif seen_lib and a.startswith(VERIF_DIR + os.sep):
+            harness_after = True   # library called back into the harness (a seam): harness frame
+    if lib and not harness_after:
+        return f"{os.path.basename(lib[-1].filename)}:{lib[-1].name}"
+    return None
